@@ -26,74 +26,71 @@ def applicable(feats):
 
 
 def gate_rule(ctx, rep, fn, cap_adt, presented_param, expect_computed, err_order):
-    """shared by server and client side.  expect_computed(canon term) -> (ok, why)"""
+    """shared by server and client side.  expect_computed(canon term) -> (ok, why).  The
+    comparison may be written inline or delegated to a crate-local verdict helper (a function
+    whose Result/bool is decided by one whole-value equality of two of its parameters)."""
     se = ctx.wrap.run(fn)
     body = ctx.fb.body(fn)
     if se is None:
         rep.violation("gate", fn, "anchor", "function not found")
         return
-    cmps = util.compare_sites(ctx, se)
-    # the proof comparison: one operand is (canonically) the presented-proof parameter
-    cand = []
-    for c in cmps:
-        ops = [canon(ctx, se, a) for a in c["args"]]
-        if ("param", presented_param) in ops:
-            cand.append((c, ops))
+    presented = ("param", presented_param)
+    cand = [d for d in util.proof_decisions(ctx, se) if presented in d["ops"]]
     if len(cand) != 1:
         rep.violation("gate", fn, "comparison", "expected exactly one equality test involving the presented proof, found %d" % len(cand), body.loc())
         return
-    c, ops = cand[0]
-    # A2 whole value
-    ok, why = util.whole_value_type(ctx.fb, c["self_ty"])
-    ok2, why2 = util.whole_value_type(ctx.fb, c["rhs_ty"]) if c["rhs_ty"] is not None else (True, "")
-    same = c["rhs_ty"] is None or c["rhs_ty"].s == c["self_ty"].s
-    rep.check(ok and ok2 and same, "whole-value", fn, "proof-comparison", why, "proof comparison is not a whole-value equality: %s / %s" % (why, why2), body.loc(c["bb"]))
-    # A3 operands
-    other = [o for o in ops if o != ("param", presented_param)]
+    d = cand[0]
+    ops = d["ops"]
+    ok, why = d["whole"]
+    rep.check(ok, "whole-value", fn, "proof-comparison", why, "proof comparison is not a whole-value equality: %s" % why, body.loc(d["bb"]))
+    other = [o for o in ops if o != presented]
     if len(other) != 1:
-        rep.violation("operands", fn, "proof-comparison", "comparison does not pair the presented proof with a computed one", body.loc(c["bb"]))
+        rep.violation("operands", fn, "proof-comparison", "comparison does not pair the presented proof with a computed one", body.loc(d["bb"]))
     else:
         good, why = expect_computed(other[0], se)
-        rep.check(good, "operands", fn, "proof-comparison", "presented proof vs " + why, "computed operand is not the expected proof: " + why, body.loc(c["bb"]))
-    # A1 gate
-    g = util.compare_gate(ctx, se, c)
-    if g is None:
-        rep.violation("gate", fn, "decision", "no branch on the result of the proof comparison", body.loc(c["bb"]))
+        rep.check(good, "operands", fn, "proof-comparison", "presented proof vs " + why, "computed operand is not the expected proof: " + why, body.loc(d["bb"]))
+    if d["eq_edge"] is None:
+        rep.violation("gate", fn, "decision", "no branch on the result of the proof comparison", body.loc(d["bb"]))
         return
-    sw, eq_edge, ne_edge = g
+    eq_edge, ne_edge = d["eq_edge"], d["ne_edge"]
     caps = util.blocks_constructing(body, cap_adt)
     oks = util.blocks_constructing(body, "std::result::Result", "Ok")
-    errs = util.blocks_constructing(body, "std::result::Result", "Err") + util.blocks_constructing(body, "error::MatchProofsError")
+    errs = [bi for bi, _, _ in util.blocks_constructing(body, "std::result::Result", "Err") + util.blocks_constructing(body, "error::MatchProofsError")]
+    errs += [bb for bb, i in se.term_info.items() if i.get("k") == "call" and "FromResidual" in i["name"]]
     if not caps or not oks:
         rep.violation("gate", fn, "capability", "no construction of %s / Ok found" % cap_adt, body.loc())
         return
     bad = [bi for bi, _, _ in caps + oks if not cfg.must_pass_edge(body, eq_edge, bi)]
     rep.check(not bad, "gate", fn, "accept-only-on-equal", "every path to %s/Ok crosses the equal edge bb%d->bb%d" % (cap_adt, eq_edge[0], eq_edge[1]),
               "a path reaches the construction of %s/Ok (bb%s) without crossing the equal edge of the proof comparison" % (cap_adt, bad), body.loc(bad[0]) if bad else None)
-    bad = [bi for bi, _, _ in errs if not cfg.must_pass_edge(body, ne_edge, bi)]
+    bad = [bi for bi in errs if not cfg.must_pass_edge(body, ne_edge, bi)]
     rep.check(bool(errs) and not bad, "gate", fn, "reject-only-on-unequal", "Err only behind the unequal edge", "Err is constructed on a path that does not cross the unequal edge (bb%s)" % bad, body.loc())
-    # every return path is one of the two
     reach_eq = cfg.reachable(body, start=eq_edge[1])
     reach_ne = cfg.reachable(body, start=ne_edge[1])
     for bi, _, _ in caps + oks:
         if bi in reach_ne and bi not in reach_eq:
             rep.violation("gate", fn, "polarity", "authenticated object constructed on the unequal side", body.loc(bi))
-    # no switch between the decision and the construction may depend on anything that lets an
-    # unequal execution in: guaranteed by the edge cut above.  A second decision that can send an
-    # *equal* execution to Err is a C01 matter, not C02.
-    # error content: both proofs, each once
-    for b, bi, si, s in [(body, bi, si, s) for bi, si, s in util.blocks_constructing(body, "error::MatchProofsError")]:
+    # error content: both proofs, each once, in their documented fields
+    want = {presented: "presented"}
+    if len(other) == 1:
+        want[other[0]] = "computed"
+    contents = []
+    for bi, si, s_ in util.blocks_constructing(body, "error::MatchProofsError"):
         loc, v = se.assigns[(bi, si)]
-        vals = [canon(ctx, se, x) for x in v[4]]
-        want = {("param", presented_param): "presented", other[0] if len(other) == 1 else None: "computed"}
-        got = [want.get(x) for x in vals]
-        good = sorted(str(x) for x in got) == ["computed", "presented"]
-        # documented field meaning: client_proof / server_proof per side
-        fields = s["rv"]["fields"]
-        order = dict(zip(fields, got))
-        good_order = all(order.get(k) == v for k, v in err_order.items())
-        rep.check(good and good_order, "error-content", fn, "MatchProofsError", "error carries %s" % order, "error does not carry the presented and the computed proof in their fields: %s" % order, body.loc(bi))
-    return se, c, other[0] if len(other) == 1 else None
+        contents.append((bi, dict(zip(s_["rv"]["fields"], [canon(ctx, se, x) for x in v[4]]))))
+    if d["err_fields"] is not None and not contents:
+        # the helper builds the error from its two operands and `?` passes it on unchanged
+        passed = [i for i in se.term_info.values() if i.get("k") == "call" and "FromResidual" in i["name"]]
+        same_err = len(passed) == 1 and "error::MatchProofsError>" in ctx.fb.ty(body.d["output"]).s
+        if same_err:
+            contents.append((d["bb"], d["err_fields"]))
+    if not contents:
+        rep.violation("error-content", fn, "MatchProofsError", "no error value carrying the proofs is produced on the reject path", body.loc())
+    for bi, fields in contents:
+        order = {k: want.get(v) for k, v in fields.items()}
+        good = sorted(str(x) for x in order.values()) == ["computed", "presented"] and all(order.get(k) == v for k, v in err_order.items())
+        rep.check(good, "error-content", fn, "MatchProofsError", "error carries %s" % order, "error does not carry the presented and the computed proof in their fields: %s" % order, body.loc(bi))
+    return se, d, other[0] if len(other) == 1 else None
 
 
 def check(ctx, rep):
